@@ -18,13 +18,14 @@ const modPath = "github.com/comdex-official/comdex"
 
 // Prog is the loaded, type-checked and SSA-built repository.
 type Prog struct {
-	Fset    *token.FileSet
-	Roots   []*packages.Package
-	ByPath  map[string]*packages.Package
-	SSA     *ssa.Program
-	Funcs   []*ssa.Function          // every comdex function incl. anonymous ones, sorted by name
-	byName  map[string]*ssa.Function // short name -> function
-	RepoDir string
+	handlerSetMemo map[*ssa.Function]bool
+	Fset           *token.FileSet
+	Roots          []*packages.Package
+	ByPath         map[string]*packages.Package
+	SSA            *ssa.Program
+	Funcs          []*ssa.Function          // every comdex function incl. anonymous ones, sorted by name
+	byName         map[string]*ssa.Function // short name -> function
+	RepoDir        string
 
 	implCache   map[*types.Interface][]types.Type
 	namedTypes  []*types.Named // all comdex named non-interface types
